@@ -397,6 +397,12 @@ impl RoutingThread {
                 }
             }
         }
+        // the receiver recomputes every block hash as hash(previous ++ pre_hash) starting from
+        // `start`: it has to be the parent hash of the first block actually streamed, which is
+        // not the hash looked up above when that height is no longer indexed here
+        if let Some(first_parent) = ghost.previous_block_hashes.first() {
+            ghost.start = *first_parent;
+        }
         ghost
     }
 
